@@ -31,16 +31,20 @@ def one(args):
 def main():
     base = sys.argv[1]
     own_only = "--own-only" in sys.argv
+    props = sys.argv[sys.argv.index("--props") + 1].split(",") if "--props" in sys.argv else ALL
+    workers = int(sys.argv[sys.argv.index("--workers") + 1]) if "--workers" in sys.argv else 8
     jobs = []
     for n in sorted(os.listdir(base)):
         pf = os.path.join(base, n, "patch.diff")
         if os.path.exists(pf):
-            jobs.append((n, pf, [n.split("-")[0]] if own_only else ALL))
+            jobs.append((n, pf, [n.split("-")[0]] if own_only else props))
     out = {}
-    with ProcessPoolExecutor(max_workers=8) as ex:
+    with ProcessPoolExecutor(max_workers=workers) as ex:
         for name, res in ex.map(one, jobs):
             out[name] = res
             own = name.split("-")[0]
+            if "--props" in sys.argv and len(props) == 1:
+                own = props[0]
             if "error" in res:
                 print(name, "ERROR", res["error"]); continue
             o = res.get(own, {})
